@@ -607,6 +607,7 @@ def run(ctx):
         ctx.section(_oneshot, ctx, index, graph, gen)
         ctx.section(_future, ctx, index)
         ctx.section(_imports, ctx, index)
+        ctx.section(_cachekey, ctx, index, graph, gen)
 
     ctx.section(_sec_dispatch)
 
@@ -807,6 +808,68 @@ def _future(ctx, index):
                     "" if first else "the sort key sends `__future__` imports to the END of the import block",
                     line=call.lineno,
                 )
+
+
+def _cachekey(ctx, index, graph, gen):
+    """
+    C19.cachekey — "each generated symbol, parsed back, has the interface of its source entry": each entry is parsed by
+    the parser `get_parser(obj, parse_name)` picks for THAT object (under --parse infer: by looking at the node — a
+    ClassDef with a `Base` base is SQLalchemy, another one a plain class). A local cache filled with `f(v, ...)` but
+    keyed by a lossy projection of v (`type(v)`, `v.__class__`, `len(v)`, an attribute) hands the first object's result
+    to every later object with the same projection: the second class in the mapping is read by the first one's parser.
+    Zero such caches exist today; a built-in example keeps the recogniser honest.
+    """
+
+    def lossy_of(key, v):
+        """key is a projection of variable v that forgets part of it"""
+        if isinstance(key, ast.Call) and isinstance(key.func, ast.Name) and key.func.id in ("type", "len", "id", "hash") and len(key.args) == 1:
+            return key.func.id != "id" and isinstance(key.args[0], ast.Name) and key.args[0].id == v
+        if isinstance(key, ast.Attribute) and isinstance(key.value, ast.Name) and key.value.id == v:
+            return True
+        return False
+
+    def findings(fn_node):
+        caches = {
+            t.id
+            for n in ast.walk(fn_node)
+            if isinstance(n, (ast.Assign, ast.AnnAssign)) and n.value is not None and (isinstance(n.value, ast.Dict) and not n.value.keys or isinstance(n.value, ast.Call) and norm(n.value.func) in ("dict", "OrderedDict") and not n.value.args and not n.value.keywords)
+            for t in (n.targets if isinstance(n, ast.Assign) else [n.target])
+            if isinstance(t, ast.Name)
+        }
+        out = []
+        for n in ast.walk(fn_node):
+            key = val = None
+            if isinstance(n, ast.Assign) and len(n.targets) == 1 and isinstance(n.targets[0], ast.Subscript) and isinstance(n.targets[0].value, ast.Name) and n.targets[0].value.id in caches:
+                key, val = n.targets[0].slice, n.value
+            elif isinstance(n, ast.Call) and isinstance(n.func, ast.Attribute) and n.func.attr == "setdefault" and isinstance(n.func.value, ast.Name) and n.func.value.id in caches and len(n.args) == 2:
+                key, val = n.args
+            if key is None or not isinstance(val, ast.Call):
+                continue
+            for a in list(val.args) + [k.value for k in val.keywords]:
+                if isinstance(a, ast.Name) and lossy_of(key, a.id):
+                    out.append((n, key, val, a.id))
+        return out
+
+    probe = ast.parse("def f(xs):\n    c = {}\n    return [(c.get(type(x)) or c.setdefault(type(x), pick(x, 1)))(x) for x in xs]\n").body[0]
+    ctx.need(len(findings(probe)) == 1, "the cache-key recogniser disagrees with its own example")
+    reach = graph.reachable([gen.qual])
+    n_f = 0
+    for q in sorted(reach):
+        f = index.funcs.get(q)
+        if f is None or f.mod.is_test:
+            continue
+        n_f += 1
+        for n, key, val, v in findings(f.node):
+            ctx.ob(
+                "C19.cachekey",
+                f,
+                n,
+                False,
+                "`{}` is cached under `{}`, which forgets everything about `{}` but that projection, although the cached value is "
+                "computed from `{}` itself: every later object with the same `{}` gets the first one's result — under --parse infer "
+                "the second class of a mapping is read by the parser chosen for the first".format(short(val, 50), short(key, 30), v, v, short(key, 30)),
+            )
+    ctx.count("functions_scanned_for_lossy_cache_keys", n_f)
 
 
 def _imports(ctx, index):
